@@ -11,8 +11,8 @@ Definition sw (v : nat) (o : option snap) : nat :=
   match o with Some sn => if Nat.eqb (sv sn) v then 1 else 0 | None => 0 end%nat.
 Definition snc (v : nat) (l : loc) : nat := list_sum (map (sw v) (ssl l)).
 
-Lemma wr_assign_heap g x v w : heap (wr_assign g x v) w = heap (decref (incref g v) (cvid (cp g x))) w.
-Proof. unfold wr_assign, cp. rewrite !decref_heap. destruct x; reflexivity. Qed.
+Lemma sl_assign_heap g x v w : heap (sl_assign g x v) w = heap (decref (incref g v) (cvid (cp g x))) w.
+Proof. unfold sl_assign, cp. rewrite !decref_heap. destruct x; reflexivity. Qed.
 
 Ltac eqbs :=
   repeat match goal with
@@ -20,7 +20,7 @@ Ltac eqbs :=
          | H : context [Nat.eqb ?a ?b] |- _ => destruct (Nat.eqb_spec a b); subst
          end.
 Ltac heapsimp :=
-  rewrite ?wr_assign_heap, ?decref_heap, ?incref_heap, ?destroy_heap in *; unfold fupd in *; cbn in *.
+  rewrite ?sl_assign_heap, ?decref_heap, ?incref_heap, ?destroy_heap in *; unfold fupd in *; cbn in *.
 
 Lemma sw_pos (w : list (option snap)) i sn : nth_error w i = Some (Some sn) -> (1 <= list_sum (map (sw (sv sn)) w))%nat.
 Proof.
@@ -56,14 +56,14 @@ Definition hvok (g : glob) (l : loc) (v : nat) : Prop :=
 
 (* what the owner of the outer mutex knows *)
 Definition after_flip (p : pc) : bool :=
-  match p with W_ldc | W_d1 | W_y1 | W_stc | W_d2 | W_y2 | W_unlock | W_ounlock => true | _ => false end.
+  match p with W_ldc | W_d1 | W_y1 | W_stc | W_d2 | W_y2 | W_a2b | W_a2e | W_unlock | W_ounlock => true | _ => false end.
 Definition ook (g : glob) (l : loc) : Prop :=
   ncommit g = (nret g + (if after_flip (at_ l) then 1 else 0))%nat /\
   (forall v, In (Some v) (wsl l) -> hvok g l v) /\
   match at_ l with
   | L_call | L_rb | L_re => cv l = committed g /\ cbase l = committed g /\ ced l = []
   | L_dec => pvok g l (cv l) /\ vdirty (heap g (cv l)) = false /\ vrd (heap g (cv l)) = 0 /\ ced l = []
-  | W_lock | W_ldr =>
+  | W_lock | W_ldr | W_a1b | W_a1e =>
       let x := heap g (cv l) in
       (cv l < next g)%nat /\ published x = true /\ freed x = false /\ refs x = O /\ vdirty x = false /\
       content x = apply_edits (content (heap g (committed g))) (ced l)
@@ -118,13 +118,13 @@ Lemma refs_step t c g l g' l' es v :
   (forall w, (cpc g w + snc w l <= refs (heap g w))%nat) -> refs (heap g (next g)) = O ->
   (refs (heap g' v) + cpc g v + snc v l = refs (heap g v) + cpc g' v + snc v l')%nat.
 Proof.
-  intros Hs (_ & _ & Hk) Hpos Hnx. destruct l as [pr p ws ss s rcn rsd cv0 lr lc tm ed ba nd].
-  destruct p; step_cases Hs; unfold snc, cpc, rd_open, rd_close, wr_close, cp in *; cbn in *; autorewrite with cow; cbn.
+  intros Hs (_ & _ & Hk) Hpos Hnx. destruct l as [pr p ws ss xs s rcn rsd cv0 lr lc tm ed ba nd].
+  destruct p; step_cases Hs; unfold snc, cpc, rd_open, rd_close, wr_open, wr_close, srd_end, cp in *; cbn in *; autorewrite with cow; cbn.
   all: try lia.
   all: ssl_facts v; cbn [sw] in *.
   all: try match goal with H : nth_error _ _ = Some (Some ?sn) |- context [decref _ (sv ?sn)] =>
              pose proof (sw_pos _ _ _ H); pose proof (Hpos (sv sn)) end.
-  all: try match goal with |- context [wr_assign ?g ?x _] =>
+  all: try match goal with |- context [sl_assign ?g ?x _] =>
              pose proof (Hpos (cvid (if x then cleft g else cright g))) end.
   all: heapsimp; try (destruct (rl g)); try (destruct rsd); try (destruct lr); cbn in *; eqbs; cbn in *; try lia.
 Qed.
@@ -144,17 +144,17 @@ Lemma hinv_step t c g l g' l' es :
   (forall v, In (Some v) (wsl l) -> hvok g l v) ->
   (forall sn, In (Some sn) (ssl l) -> (1 <= refs (heap g (sv sn)))%nat) ->
   (forall x, (1 <= refs (heap g (cvid (cp g x))))%nat) ->
-  ((at_ l = W_ldr \/ at_ l = W_d2) -> freed (heap g (cv l)) = false /\ published (heap g (cv l)) = true) ->
+  ((at_ l = W_a1e \/ at_ l = W_a2e) -> freed (heap g (cv l)) = false /\ published (heap g (cv l)) = true) ->
   (at_ l = W_str -> (cv l < next g)%nat) ->
   (at_ l = C_unlock -> refs (heap g (cv l)) = O) ->
   (at_ l = W_ounlock -> (nret g < ncommit g)%nat) ->
   hinv g'.
 Proof.
   intros Hs (Hn1 & Hn0 & Hk) Hi Hh Hsn Hcp Hcv Hst Hcu Hou.
-  destruct l as [pr p ws ss s rcn rsd cv0 lr lc tm ed ba nd]. set (PC := p).
+  destruct l as [pr p ws ss xs s rcn rsd cv0 lr lc tm ed ba nd]. set (PC := p).
   destruct p; step_cases Hs; try exact Hi; try (apply (hinv_same g); [exact Hi|reflexivity..]); cbn in *.
   all: destruct (H_com _ Hi) as (Hc1 & Hc2 & Hc3); pose proof (H_cre _ Hi) as Hcr.
-  all: constructor; unfold rd_open, rd_close, wr_close; cbn; autorewrite with cow; cbn;
+  all: constructor; unfold rd_open, rd_close, wr_open, wr_close, srd_end; cbn; autorewrite with cow; cbn;
     [intros vv Hf | intros vv Hr | intros vv Hp | intros vv | | ].
   all: try (old_at Hi vv).
   all: try (heapsimp; heapsimp; eqbs; cbn in *; solve [auto | lia | intuition (auto; lia) ]).
@@ -165,7 +165,7 @@ Proof.
                   first [ pose proof (Hsn _ (nth_error_In _ _ H)) | destruct (Hh _ (nth_error_In _ _ H)) as [(? & ? & ? & ? & ? & ?) (? & ? & ? & ?)] ];
                   revert H
               end; intros.
-  all: try (heapsimp; eqbs; cbn in *; try (destruct (rl g)); try (destruct lr); cbn in *; rewrite ?orb_true_iff, ?orb_false_iff in *; solve [auto | lia | congruence | intuition (auto; try lia; try congruence) ]).
+  all: try (heapsimp; eqbs; cbn in *; try (destruct (rl g)); try (destruct lr); try (destruct rsd); cbn in *; rewrite ?orb_true_iff, ?orb_false_iff in *; solve [auto | lia | congruence | intuition (auto; try lia; try congruence) ]).
 Qed.
 (* a thread that does not own the outer mutex leaves alone everything its owner relies on *)
 Definition frame (g g' : glob) : Prop :=
@@ -180,18 +180,18 @@ Lemma nonowner_frame t c g l g' l' es :
   frame g g'.
 Proof.
   intros Hs (Hn1 & Hn0 & Hk) Ho Ho' Hsn Hcp.
-  destruct l as [pr p ws ss s rcn rsd cv0 lr lc tm ed ba nd]. set (PC := p).
+  destruct l as [pr p ws ss xs s rcn rsd cv0 lr lc tm ed ba nd]. set (PC := p).
   destruct p; step_cases Hs; unfold owns in *; cbn in Ho, Ho', Hk; try discriminate; unfold frame.
   all: try (splits; try reflexivity; intros vv; splits; reflexivity).
   all: try (exfalso; apply hasw_false in Ho;
             match goal with H : nth_error ?w _ = Some (Some _), H0 : nwhl ?w = O |- _ => apply nth_error_In in H; solve [eapply nwhl_zero_noin; eauto] end).
-  all: cbn in *; unfold rd_open, rd_close; cbn; autorewrite with cow; cbn.
+  all: cbn in *; unfold rd_open, rd_close, srd_end; cbn; autorewrite with cow; cbn.
   all: unfold cp in *; pose proof (Hcp true); pose proof (Hcp false); cbn in *.
   all: repeat match goal with
               | H : nth_error _ _ = Some (Some ?n) |- _ => pose proof (Hsn _ (nth_error_In _ _ H)); revert H
               end; intros.
   all: try match type of Hk with ex _ => destruct Hk as [sn0 [Hk Hk2]]; pose proof (Hsn _ (nth_error_In _ _ Hk)) end.
-  all: try (splits; try reflexivity; intros vv; heapsimp; eqbs; cbn in *; try (destruct (rl g)); cbn in *;
+  all: try (splits; try reflexivity; intros vv; heapsimp; eqbs; cbn in *; try (destruct (rl g)); try (destruct rsd); cbn in *;
             splits; solve [auto | lia | congruence | intros; exfalso; lia]).
 Qed.
 Lemma hvok_frame g g' l v : frame g g' -> hinv g -> (forall x, (1 <= refs (heap g (cvid (cp g x))))%nat) -> vis_ok g ->
@@ -226,7 +226,7 @@ Lemma cnt_step t c g l g' l' es :
   (owns l = true -> ncommit g = (nret g + aflip (at_ l))%nat) -> (omtx g = None -> ncommit g = nret g) ->
   (owns l' = true -> ncommit g' = (nret g' + aflip (at_ l'))%nat) /\ (omtx g' = None -> ncommit g' = nret g').
 Proof.
-  intros Hs Ho Hc Hf. destruct l as [pr p ws ss s rcn rsd cv0 lr lc tm ed ba nd]. set (PC := p).
+  intros Hs Ho Hc Hf. destruct l as [pr p ws ss xs s rcn rsd cv0 lr lc tm ed ba nd]. set (PC := p).
   destruct p; step_cases Hs; unfold owns, aflip in *; cbn in *; autorewrite with cow; cbn.
   all: try (destruct (hasw ws) eqn:Eh; cbn in * ).
   all: try match goal with H : nth_error ?w _ = Some (Some _), E : hasw ?w = false |- _ => apply nth_error_In, In_hasw in H; congruence end.
@@ -244,7 +244,7 @@ Lemma ook_hp_step t c g l g' l' es :
   match at_ l' with
   | L_call | L_rb | L_re => cv l' = committed g' /\ cbase l' = committed g' /\ ced l' = []
   | L_dec => pvok g' l' (cv l') /\ vdirty (heap g' (cv l')) = false /\ vrd (heap g' (cv l')) = 0 /\ ced l' = []
-  | W_lock | W_ldr =>
+  | W_lock | W_ldr | W_a1b | W_a1e =>
       let x := heap g' (cv l') in
       (cv l' < next g')%nat /\ published x = true /\ freed x = false /\ refs x = O /\ vdirty x = false /\
       content x = apply_edits (content (heap g' (committed g'))) (ced l')
@@ -260,7 +260,7 @@ Proof.
   assert (Hpc : published (heap g (committed g)) = true /\ (committed g < next g)%nat).
   { rewrite <- Hv1. split; [apply (H_refs _ Hi), Hcp|]. rewrite Hv1. apply (H_com _ Hi). }
   destruct Hpc as [Hpc Hlt]. pose proof (Hcp true) as Hcp1. pose proof (Hcp false) as Hcp0.
-  destruct l as [pr p ws ss s rcn rsd cv0 lr lc tm ed ba nd]. set (PC := p).
+  destruct l as [pr p ws ss xs s rcn rsd cv0 lr lc tm ed ba nd]. set (PC := p).
   destruct p; step_cases Hs; unfold owns in *; cbn in Ho', Hk, Hk', Hn0, Hn0', Hok, Hw; try discriminate.
   all: try (specialize (Hn0 eq_refl)); try (specialize (Hn0' eq_refl)); try (specialize (Hw eq_refl)).
   all: try (specialize (Hok eq_refl)).
@@ -293,8 +293,8 @@ Proof.
               | H : nth_error _ _ = Some (Some ?sn) |- _ => pose proof (Hsn _ (nth_error_In _ _ H)); revert H
               end; intros.
   all: try match type of Hk with ex _ => destruct Hk as [sn0 [Hk Hk2]]; pose proof (Hsn _ (nth_error_In _ _ Hk)) end.
-  all: unfold hvok, pvok, rd_open, rd_close, wr_close, wok, oth, cp in *; cbn in *; autorewrite with cow; cbn.
-  all: try (heapsimp; eqbs; cbn in *; try (destruct (rl g)); try (destruct lr); cbn in *;
+  all: unfold hvok, pvok, rd_open, rd_close, wr_open, wr_close, srd_end, wok, oth, cp in *; cbn in *; autorewrite with cow; cbn.
+  all: try (heapsimp; eqbs; cbn in *; try (destruct (rl g)); try (destruct lr); try (destruct rsd); cbn in *;
             rewrite ?fold_left_app; cbn [apply_edits fold_left apply_edit] in *;
             splits; solve [auto | lia | congruence | discriminate | exfalso; lia | intuition (auto; try lia; try congruence)]).
 Qed.
@@ -322,21 +322,21 @@ Lemma pub_stable t c g l g' l' es v :
   content (heap g' v) = content (heap g v) /\ (vseq (heap g v) <= vseq (heap g' v))%nat /\ published (heap g' v) = true.
 Proof.
   intros Hs Hi Hwe Hp. destruct (H_pub _ Hi v Hp) as [_ Hlt]. pose proof (H_seq _ Hi v) as Hsq.
-  destruct l as [pr p ws ss s rcn rsd cv0 lr lc tm ed ba nd]. set (PC := p).
+  destruct l as [pr p ws ss xs s rcn rsd cv0 lr lc tm ed ba nd]. set (PC := p).
   destruct p; step_cases Hs; cbn in Hwe; try (specialize (Hwe eq_refl)); auto.
-  all: unfold rd_open, rd_close, wr_close; cbn; autorewrite with cow; cbn.
+  all: unfold rd_open, rd_close, wr_open, wr_close, srd_end; cbn; autorewrite with cow; cbn.
   all: try (heapsimp; eqbs; cbn in *; splits; solve [auto | lia | congruence]).
 Qed.
 
 Lemma nret_mono t c g l g' l' es : tstep t c g l = Some (g', l', es) -> (nret g <= nret g')%nat.
 Proof.
-  intros Hs. destruct l as [pr p ws ss s rcn rsd cv0 lr lc tm ed ba nd].
-  destruct p; step_cases Hs; unfold rd_open, rd_close, wr_close; cbn; autorewrite with cow; cbn; lia.
+  intros Hs. destruct l as [pr p ws ss xs s rcn rsd cv0 lr lc tm ed ba nd].
+  destruct p; step_cases Hs; unfold rd_open, rd_close, wr_open, wr_close, srd_end; cbn; autorewrite with cow; cbn; lia.
 Qed.
 
 Lemma nok_step t c g l g' l' es : tstep t c g l = Some (g', l', es) -> nok g l -> nok g' l'.
 Proof.
   intros Hs Hn. pose proof (nret_mono _ _ _ _ _ _ _ Hs) as Hm. revert Hm.
-  destruct l as [pr p ws ss s rcn rsd cv0 lr lc tm ed ba nd].
+  destruct l as [pr p ws ss xs s rcn rsd cv0 lr lc tm ed ba nd].
   destruct p; step_cases Hs; unfold nok, rd_open, rd_close, wr_close in *; cbn in *; autorewrite with cow; cbn; intros; try lia; auto.
 Qed.
